@@ -18,6 +18,8 @@ def nontrivial(engine, opline):
     if engine == 'block':
         # non-trivial: a transaction line that was admitted (not a begin/end line, not refused at admission)
         return bool(t) and t[0] in ('eth', 'cos')
+    if engine == 'reexec':
+        return bool(t) and t[0] == 'blk' and 'n=0' not in t
     if engine == 'cpc':
         return bool(t) and t[0] in ('cgen', 'cdep', 'cstk', 'cupd', 'cdis')
     if engine == 'calltree':
@@ -190,6 +192,22 @@ PROPS['C15'] = dict(
     assumptions=['x/bank enforces vesting locks in SendCoins (trusted SDK code; exercised: a SubBalance beyond the spendable amount panics)',
                  'the interpreter reaches accounts only through the StateDB API the engine drives (touch, Transfer, CreateAccount, Suicide)',
                  'only delayed vesting accounts are in the fixture; the guard reads GetEndTime() which all vesting kinds implement'],
+)
+
+PROPS['C01'] = dict(
+    lean_modules=['Model.StateDB', 'Properties.C01', 'Facts.Determinism', 'Facts.StateDB'],
+    facts=['*'],
+    theorems=['C01_touched_order_irrelevant', 'C01_commit_order_independent', 'C01_map_copy_order_independent', 'C01_deliver_ignores_node_config',
+              'canon_perm', 'sorted_ext', 'setInsert_sorted', 'copy_get', 'find_perm',
+              'fact_census_time_now', 'fact_census_map_range', 'fact_census_go_stmt', 'fact_census_no_rand_no_env',
+              'fact_commit_sorted', 'fact_destroy_guard_block_time'],
+    engines=[dict(name='reexec', test='TestEngineReexec', quick=25, thorough=120, thorough_seeds=2, no_model=True, rerun_compare=True, vest_end_delay=20)],
+    rule='seeded block histories (1-8 txs per block: transfers, logging / storing / reverting contracts, creations, self-destruct fan-outs destroying 2-6 contracts that hold three denominations in ONE transaction, ERC-20 precompile call trees with a reverted frame, staking precompile delegate and transfer(), zero-value touches of a vesting account, bad nonces, Cosmos sends) executed on two fresh application instances with fixed genesis and header times, and again in a second process; compared: app hash and the marshalled ResponseFinalizeBlock without Log/Info; non-trivial = a block line; distinct by op-line hash',
+    assumptions=['nondeterminism inside Cosmos-SDK, CometBFT, IAVL and go-ethereum themselves is outside the census (trusted); it is still exercised by the twin execution',
+                 'ExecTxResult.Log / Info are not consensus data (a recovered panic puts a stack trace with addresses there) and are excluded from the comparison',
+                 'the wall-clock part of the tie (second process started after a vesting end time has passed) runs in the thorough tier only; in the quick tier wall-clock independence rests on the census obligation',
+                 'the models are pure functions: the theorems here are the order-independence arguments for each place the census finds a map'],
+    technique='Lean 4 theorems (order-independence of every map use) + regenerated census obligations + twin execution / twin process re-execution of the real application',
 )
 
 NOT_APPLICABLE = {}
